@@ -73,6 +73,21 @@ Proof.
   - destruct (Nat.eqb c k); cbn; auto.
 Qed.
 
+(* a read: nothing changes; death before it leaves the disk as it is *)
+Lemma pres_rd : pres af I S (fun _ => True) rd.
+Proof.
+  intros pl c d Hp Hi. unfold rd, out_of, disk_of.
+  destruct pl as [|k sub|k sub]; cbn; [auto| |]; destruct (Nat.eqb c k); cbn; auto.
+Qed.
+
+Lemma pres_rd_nofail : af = false -> pres af I S (fun b => b = true) rd.
+Proof.
+  intros Haf pl c d Hp Hi. unfold rd, out_of, disk_of.
+  destruct pl as [|k sub|k sub]; cbn; [auto| |].
+  - destruct (Nat.eqb c k); cbn; auto.
+  - cbn in Hp. congruence.
+Qed.
+
 Lemma pres_touch f : (forall d, I d -> I (f d)) -> pres af I S (fun _ => True) (touch f).
 Proof. intros Hf pl c d Hp Hi. unfold touch, out_of, disk_of. cbn. auto. Qed.
 
@@ -356,22 +371,24 @@ Proof. unfold sweepM. eapply pres_ignore. apply pres_mut; intros; auto. Qed.
 
 Lemma A_create_new r : P (fun _ => True) (create_newM r).
 Proof.
-  unfold create_newM. step.
+  unfold create_newM. step; [apply (pres_rd IS)|]. step.
   { eapply pres_attempt. step; [apply A_write_pj; split; [apply Iban_empty|exact Logic.I]|].
     apply pres_mut; intros; auto. }
-  destruct a; [eapply pres_ignore, A_write_sj; exact Logic.I|rt].
+  destruct a0; [eapply pres_ignore, A_write_sj; exact Logic.I|rt].
 Qed.
 
 Lemma A_load c : P (GLd ExtraA RsA) (loadM c).
 Proof.
   assert (Ge : GLd ExtraA RsA ({| rel := c_rel c; evq := [] |}, pempty)).
   { split; [split; [apply Iban_empty|exact Logic.I]|intros; exact Logic.I]. }
-  unfold loadM. step; [apply pres_get|].
-  destruct (sj a) as [| |s].
+  unfold loadM. step; [apply (pres_rd IS)|]. step; [apply pres_get|].
+  destruct (if a then sj a0 else JGarbage) as [| |s].
   - step; [apply A_create_new|]. apply pres_ret. exact Ge.
   - step; [apply A_create_new|]. apply pres_ret. exact Ge.
-  - destruct (String.eqb (rel s) (c_rel c)).
-    + apply pres_ret. split; [split; [apply PJI_load; exact H|exact Logic.I]|intros; exact Logic.I].
+  - step; [apply (pres_rd IS)|]. destruct (String.eqb (rel s) (c_rel c)).
+    + apply pres_ret. destruct a1.
+      * split; [split; [apply PJI_load; exact H0|exact Logic.I]|intros; exact Logic.I].
+      * exact Ge.
     + step; [apply A_create_new|]. apply pres_ret. exact Ge.
 Qed.
 
@@ -465,9 +482,12 @@ Hypothesis c_is_r : c_rel c = r.
 
 Lemma B_load : P (GLd ExtraB RsB) (loadM c).
 Proof.
-  intros pl k d Hp [Sd G]. unfold loadM, bind, get, out_of, disk_of. cbn.
-  destruct Sd as [s [E1 E2]]. rewrite E1, c_is_r, E2, String.eqb_refl. cbn.
-  split; [split; [exists s; auto|exact G]|]. split; [exact G|]. intros q. exact E2.
+  unfold loadM.
+  eapply pres_bind; [apply (pres_rd_nofail IB_SB eq_refl)|intros ok1 Hok1; cbv beta in Hok1; subst ok1].
+  eapply pres_bind; [apply pres_get|intros d Hd]. destruct Hd as [[s [E1 E2]] G]. rewrite E1.
+  eapply pres_bind; [apply (pres_rd_nofail IB_SB eq_refl)|intros ok2 Hok2; cbv beta in Hok2; subst ok2].
+  rewrite c_is_r, E2, String.eqb_refl. apply pres_ret.
+  split; [exact G|]. intros q. exact E2.
 Qed.
 
 Theorem crash_keeps_good o :
@@ -602,29 +622,90 @@ Proof.
 Qed.
 
 (* ---------- first launch of another release (or unreadable state.json) ---------- *)
-Lemma create_new_shape rr pl d :
-  let d' := disk_of (create_newM rr pl 0%nat d) in
+Lemma create_new_shape rr pl d c0 :
+  (c0 <= 2)%nat ->
+  let d' := disk_of (create_newM rr pl c0 d) in
   sj d' = sj d \/ sj d' = JGarbage \/ load_p d' = pempty.
 Proof.
-  destruct d as [sjd pjd a j]. destruct pl as [|k sub|k sub].
-  - cbv. auto.
-  - do 5 (destruct k as [|k]; [cbv; repeat match goal with |- context [match sub ?z with _ => _ end] => destruct (sub z) end; solve [auto 6 | destruct pjd; auto 6]|]).
-    cbv. auto.
-  - do 5 (destruct k as [|k]; [cbv; repeat match goal with |- context [match sub ?z with _ => _ end] => destruct (sub z) end; solve [auto 6 | destruct pjd; auto 6]|]).
-    cbv. auto.
+  intros Hc. destruct d as [sjd pjd a j].
+  destruct c0 as [|[|[|c0]]]; [| | |exfalso; lia];
+  (destruct pl as [|k sub|k sub];
+   [cbv; auto
+   |do 9 (destruct k as [|k]; [cbv; repeat match goal with |- context [match sub ?z with _ => _ end] => destruct (sub z) end; solve [auto 6 | destruct pjd; auto 6]|]); cbv; auto
+   |do 9 (destruct k as [|k]; [cbv; repeat match goal with |- context [match sub ?z with _ => _ end] => destruct (sub z) end; solve [auto 6 | destruct pjd; auto 6]|]); cbv; auto]).
+Qed.
+
+Lemma bind_unf {A B} (m : M A) (f : A -> M B) pl c0 d :
+  bind m f pl c0 d = match m pl c0 d with
+                     | (Ret a, c', d') => f a pl c' d'
+                     | (Err, c', d') => (Err, c', d')
+                     | (Died, c', d') => (Died, c', d')
+                     end.
+Proof. reflexivity. Qed.
+
+Lemma rd_cases pl c0 d : rd pl c0 d = (Died, c0, d) \/ exists b, rd pl c0 d = (Ret b, S c0, d).
+Proof.
+  unfold rd. destruct pl as [|k s|k s]; [right; exists true; reflexivity| |];
+    destruct (Nat.eqb c0 k); eauto.
+Qed.
+
+(* loading on a disk of another release: the process dies at one of the (at most two) reads, having changed
+   nothing, or create_new runs and the fresh empty state is returned *)
+Lemma load_other_release c pl d :
+  ~ stable (c_rel c) d ->
+  (exists c', loadM c pl 0%nat d = (Died, c', d)) \/
+  exists c0, (c0 <= 2)%nat /\
+    loadM c pl 0%nat d =
+    match create_newM (c_rel c) pl c0 d with
+    | (Ret _, c', d') => (Ret ({| rel := c_rel c; evq := [] |}, pempty), c', d')
+    | (Err, c', d') => (Err, c', d')
+    | (Died, c', d') => (Died, c', d')
+    end.
+Proof.
+  intros H. unfold loadM. rewrite bind_unf.
+  destruct (rd_cases pl 0%nat d) as [E0|[b0 E0]]; rewrite E0; [left; eauto|].
+  rewrite bind_unf. change (get pl 1%nat d) with (@Ret disk d, 1%nat, d). cbv iota beta.
+  assert (Hcn : forall c0, (c0 <= 2)%nat ->
+            exists c1, (c1 <= 2)%nat /\
+            (create_newM (c_rel c);;; ret ({| rel := c_rel c; evq := [] |}, pempty)) pl c0 d =
+            match create_newM (c_rel c) pl c1 d with
+            | (Ret _, c', d') => (Ret ({| rel := c_rel c; evq := [] |}, pempty), c', d')
+            | (Err, c', d') => (Err, c', d')
+            | (Died, c', d') => (Died, c', d')
+            end).
+  { intros c0 Hc0. exists c0. split; [exact Hc0|]. rewrite bind_unf.
+    destruct (create_newM (c_rel c) pl c0 d) as [[oc k] dd]. destruct oc; reflexivity. }
+  destruct (if b0 then sj d else JGarbage) as [| |s] eqn:Es.
+  - right. apply (Hcn 1%nat). lia.
+  - right. apply (Hcn 1%nat). lia.
+  - destruct b0; [|discriminate].
+    assert (Er : String.eqb (rel s) (c_rel c) = false).
+    { destruct (String.eqb_spec (rel s) (c_rel c)) as [Er|Er]; [|reflexivity]. exfalso. apply H. exists s. auto. }
+    rewrite bind_unf.
+    destruct (rd_cases pl 1%nat d) as [E1|[b1 E1]]; rewrite E1; [left; eauto|].
+    rewrite Er. right. apply (Hcn 2%nat). lia.
 Qed.
 
 Lemma init_is_create_new c pl d :
   ~ stable (c_rel c) d ->
-  disk_of (initM sha sigok c pl 0%nat d) = disk_of (create_newM (c_rel c) pl 0%nat d).
+  disk_of (initM sha sigok c pl 0%nat d) = d \/
+  exists c0, (c0 <= 2)%nat /\ disk_of (initM sha sigok c pl 0%nat d) = disk_of (create_newM (c_rel c) pl c0 d).
 Proof.
-  intros H. unfold initM, cs_init_recoverM, loadM, attempt, bind, get, disk_of. cbn.
-  destruct (sj d) as [| |s] eqn:E.
-  - destruct (create_newM (c_rel c) pl 0%nat d) as [[oc k] dd]. destruct oc; reflexivity.
-  - destruct (create_newM (c_rel c) pl 0%nat d) as [[oc k] dd]. destruct oc; reflexivity.
-  - destruct (String.eqb_spec (rel s) (c_rel c)) as [Er|Er].
-    + exfalso. apply H. exists s. auto.
-    + destruct (create_newM (c_rel c) pl 0%nat d) as [[oc k] dd]. destruct oc; reflexivity.
+  intros H. unfold initM, cs_init_recoverM, attempt. rewrite bind_unf. rewrite bind_unf.
+  destruct (load_other_release c pl d H) as [[c' E]|(c0 & Hc0 & E)]; rewrite E.
+  - left. reflexivity.
+  - right. exists c0. split; [exact Hc0|].
+    destruct (create_newM (c_rel c) pl c0 d) as [[oc k] dd]. destruct oc; reflexivity.
+Qed.
+
+Lemma other_release_nothing c d :
+  ~ stable (c_rel c) d -> snd (cs_next sha sigok c d) = None /\ snd (next_launch c d) = None.
+Proof.
+  intros H. pose proof (not_stable_norm c d H) as Hn. split.
+  - unfold cs_next. rewrite Hn.
+    pose proof (fresh_next c) as F. unfold cs_next in F.
+    rewrite norm_id in F by (eexists; split; reflexivity). exact F.
+  - unfold next_launch. rewrite (cs_init_recover_fresh c d Hn). apply fresh_next.
 Qed.
 
 (* whatever happens during the first launch of a new release — death at any step, any single
@@ -634,9 +715,11 @@ Theorem release_change_safe c d pl :
   let d' := disk_of (initM sha sigok c pl 0%nat d) in
   snd (cs_next sha sigok c d') = None /\ snd (next_launch c d') = None.
 Proof.
-  intros H. cbv zeta. rewrite (init_is_create_new c pl d H).
-  pose proof (create_new_shape (c_rel c) pl d) as Sh. cbv zeta in Sh.
-  set (d' := disk_of (create_newM (c_rel c) pl 0%nat d)) in *.
+  intros H. cbv zeta.
+  destruct (init_is_create_new c pl d H) as [E0|(c0 & Hc0 & E0)]; rewrite E0.
+  { apply other_release_nothing. exact H. }
+  pose proof (create_new_shape (c_rel c) pl d c0 Hc0) as Sh. cbv zeta in Sh.
+  set (d' := disk_of (create_newM (c_rel c) pl c0 d)) in *.
   destruct (norm_cases c d') as [Hn|Hn].
   - assert (St : stable (c_rel c) d') by (rewrite <- Hn; apply norm_stable).
     destruct Sh as [E|[E|E]].
